@@ -1,31 +1,8 @@
-import BumpProof.Lemmas.GeomNew
+import BumpProof.Lemmas.GeomCopy
 namespace Arena
 open Rs Lemmas
-
-def freshTry (cfg : Cfg) (k : Kind) (L : Layout) (hints : Hints) (r : State × Except AErr Nat) :
-    R (State × Except AErr (Nat × Nat)) :=
-  match r with
-  | (s', .error e) => pure (s', .error e)
-  | (s', .ok i) => do
-    let s' := { s' with cur := .chunk i }
-    match ← tryCur cfg k s' L hints with
-    | some (v, s'') => pure (s'', .ok v)
-    | none => throw (.ub "unreachable_unchecked: the layout does not fit the chunk that was created for it")
-
-theorem inAnotherChunk_eq (cfg : Cfg) (k : Kind) (s : State) (L : Layout) (hints : Hints) :
-    inAnotherChunk cfg k s L hints =
-      match s.cur with
-      | .claimed => pure (s, .error .claimed)
-      | .unallocated => newChunkForCapacity cfg s L >>= freshTry cfg k L hints
-      | .chunk i =>
-        walkNext cfg k L hints (s.chunks.length - (i+1)) i s >>= fun x =>
-          match x with
-          | (some (v, s'), _) => pure (s', .ok v)
-          | (none, s') => appendFor cfg s' L >>= freshTry cfg k L hints := by
-  unfold inAnotherChunk
-  rfl
-example (cfg : Cfg) (k : Kind) (s : State) (L : Layout) (h : Hints) (fuel i : Nat): walkNext cfg k L h (fuel+1) i s = .ok (none, s) := by
-  unfold walkNext
+example (cfg : Cfg) (s : State) (ptr oldSize : Nat) (newL : Layout) : grow cfg s ptr oldSize newL = .ok (s, .ok 0) := by
+  unfold grow
   trace_state
   sorry
 end Arena
